@@ -57,3 +57,47 @@ def astype(ex, e, st, base):
 
 def obj_method(ex, e, st, base, attr):
     raise U(f"method {attr} of {base.cls}")
+
+
+def shape_of(ex, e, st):
+    kw = {k.arg: k.value for k in e.keywords}
+    sh = kw.get("shape", e.args[0] if e.args else None)
+    if sh is None:
+        raise U("array constructor without a shape")
+    v = ex.ev(sh, st)
+    dims = [toint(x) for x in v.items] if isinstance(v, Tup) else [toint(v)]
+    dt = kw.get("dtype", e.args[1] if len(e.args) > 1 else None)
+    dtype = "float"
+    if dt is not None:
+        t = ex.ev(dt, st)
+        dtype = t[1] if isinstance(t, tuple) and t[0] == "type" else "float"
+    return dims, dtype
+
+
+def filled(ex, e, st, value, what):
+    """numpy.zeros / numpy.ones (shape, dtype): a fresh array, every entry = value; the dtype is part of the value."""
+    ex.trusted_used.add(f"numpy.{what}(shape, dtype): fresh array of that shape filled with {value}")
+    dims, dtype = shape_of(ex, e, st)
+    from pyvc.sym import const_mat
+    for d in dims:
+        ex.may_raise(st, "ValueError", d < 0, f"negative-dimension:{ex.ordinal('dim')}", e.lineno)
+    if len(dims) == 1:
+        out = Seq("nd", "bool" if dtype == "bool" else "int", z3.K(I, iv(value)), dims[0], dtype=dtype)
+        out.const_fill = value
+        return out
+    if len(dims) == 2:
+        m = const_mat(value, dims[0], dims[1])
+        m.dtype = dtype
+        m.const_fill = value
+        return m
+    raise U("array of more than two dimensions")
+
+
+@lib("zeros")
+def np_zeros(ex, e, st):
+    return filled(ex, e, st, 0, "zeros")
+
+
+@lib("ones")
+def np_ones(ex, e, st):
+    return filled(ex, e, st, 1, "ones")
